@@ -739,7 +739,10 @@ def g3_neon(toks):
     if norm(hdr) != "fn offsetz ( x : uint8x16_t ) -> u32" or norm(body) != NEON_OFFSETZ:
         raise TranslationError("neon::offsetz changed: " + norm(body))
     hdr, body = fn_body(toks, "offsetnz")
-    if norm(hdr) != "fn offsetnz ( x : uint8x16_t ) -> u32" or norm(body) != NEON_OFFSETNZ:
+    def untyped(t):
+        # `let x: T = e` and `let x = e` are the same statement (the annotation is checked by rustc)
+        return re.sub(r"\blet (mut )?(\w+) : [^=;]+ =", r"let \1\2 =", t)
+    if norm(hdr) != "fn offsetnz ( x : uint8x16_t ) -> u32" or untyped(norm(body)) != untyped(NEON_OFFSETNZ):
         raise TranslationError("neon::offsetnz changed:\n  " + norm(body))
     kernels = ("match_header_name_char_16_neon", "match_url_char_16_neon", "match_header_value_char_16_neon")
     for fn in kernels:
